@@ -37,7 +37,7 @@ Tick ==
                                         i \in {j \in 1..Len(pidMap[t]) : pidMap[t][j].task /\ pidMap[t][j].pid < LowWm(t)}}
                                 ELSE {} : t \in Tgt}
   /\ UNCHANGED <<route, srcVars, rpc, pending, bcastTo, ackByTarget, lastSentMin, ackChan,
-                 up, nextPid, ring, prevAck, spc, fwd, fallback, discardN, inflight, replayTo,
+                 up, nextPid, ring, prevAck, spc, fwd, fallback, discardN, inflight, replayTo, lastSent,
                  tgtVars, pidMap, delivered, received, lastAck, faults, lost, viol>>
 TNext == \/ (Prompt /\ UNCHANGED <<ticks, doneAt>>)
          \/ ((\E s \in Src : \E k \in 1..MaxBatch : RecvTasks(s, k)) /\ UNCHANGED <<ticks, doneAt>>)
